@@ -1684,5 +1684,5 @@ func checkPolicyQuestionsAgree(w *World, r *Report, rule string) {
 			}
 		}
 	}
-	r.floor("questions put to the security policy", n, 3)
+	r.floor("questions put to the security policy", n, 1)
 }
